@@ -174,8 +174,10 @@ func (c *FnCtx) libraryModel(x *ssa.Call, obj *types.Func, common *ssa.CallCommo
 	full := objFullName(obj)
 	u := c.g.u
 	used := func() { c.g.note("library model: %s", full) }
+	// errors.New / fmt.Errorf allocate: the result is a new reference, different from every value
+	// that existed before (in particular from the package-level sentinel errors)
 	nonNilErr := func() Term {
-		e := c.fresh("newerr", SInt)
+		e := c.allocRef(st)
 		c.define(gt(e, tZero))
 		return e
 	}
